@@ -114,7 +114,7 @@ func run(c *core.Ctx) {
 		t1, k1 := kid()
 		t2, kk2 := kid()
 		t3, k3 := kid()
-		bad := func() string { return core.Pick(r, "past", "future", "zero", "one-second-ago", "inverted") }
+		bad := func() string { return core.Pick(r, "past", "future", "zero", "one-second-ago", "inverted", "soon", "just-expired") }
 		e := shimsim.CertSpec{ID: pool.ReserveID(), KeyID: k2, Window: bad(), KidText: t1, KidKind: k1}
 		e2 := shimsim.CertSpec{ID: pool.ReserveID(), KeyID: k, Window: bad(), KidText: t2, KidKind: kk2}
 		g := shimsim.CertSpec{ID: pool.ReserveID(), KeyID: k, Window: core.Pick(r, "current", "forever"), KidText: t3, KidKind: k3}
